@@ -385,6 +385,7 @@ pub fn def() -> PropDef {
         needs_pairing: false,
         subs: vec![
             Box::new(crate::engine::EnumSub { name: "long-history", rule: super::longhist::RULE, run: run_long_history, replay: super::longhist::replay, exhaustive: false }),
+            Box::new(crate::engine::EnumSub { name: "two-input-bursts", rule: super::longhist::BURST_RULE, run: run_two_input_bursts, replay: super::longhist::replay_burst, exhaustive: false }),
             Box::new(Sub { name: "g1-iso11", rule: "11-isogeny E1' -> E vs model rational map; homomorphism", quick: 12_000, thorough: 50_000, strategy: || boxed(iso_case_strategy(0)), check: check_iso_any }),
             Box::new(Sub { name: "g2-iso3", rule: "3-isogeny E2' -> E' vs model rational map; homomorphism", quick: 12_000, thorough: 50_000, strategy: || boxed(iso_case_strategy(1)), check: check_iso_any }),
             Box::new(Sub { name: "related-sequences", rule: "the same point in other representatives / negated / again, evaluated back to back, each compared with the model", quick: 1_500, thorough: 30_000, strategy: || boxed(iso_seq_strategy()), check: check_iso_seq }),
